@@ -151,10 +151,11 @@ OpEntry(ts, cap, m, k, v, w) ==          \* entry.rs
   LET i == Find(ts, k.c)
       occ == i # 0
       vdead == IF m \in EntryMethodsV THEN {v.vt} ELSE {}     \* an unused value argument is dropped
-      VacInsert(val, ret) ==              \* VacantEntry::insert -> insert_ii(key, value, false)
+      VacInsertP(val, ret, pret) ==       \* VacantEntry::insert -> insert_ii(key, value, false)
         LET r == InsertII(ts, cap, k, val, FALSE) IN
-        IF r.panic THEN Res(<<"panic">>, ts, {k.kt}, {val.vt})
+        IF r.panic THEN Res(pret, ts, {k.kt}, {val.vt})
         ELSE Res(ret, r.post, {}, {})
+      VacInsert(val, ret) == VacInsertP(val, ret, <<"panic">>)
   IN
   CASE m = "key" ->
          Res(IF occ THEN <<"occk">> \o JEntK(ts[i]) ELSE <<"vack">> \o JKey(k), ts, {k.kt}, {})
@@ -163,10 +164,10 @@ OpEntry(ts, cap, m, k, v, w) ==          \* entry.rs
          ELSE VacInsert(v, <<"vac">> \o JVal(v))
     [] m = "or_insert_with" ->            \* closure runs exactly once iff vacant
          IF occ THEN Res(<<"occ">> \o JEntV(ts[i]) \o <<0>>, ts, {k.kt}, {v.vt})
-         ELSE VacInsert(v, <<"vac">> \o JVal(v) \o <<1>>)
+         ELSE VacInsertP(v, <<"vac">> \o JVal(v) \o <<1>>, <<"panic", 1>>)   \* the closure has run before the overflow panic
     [] m = "or_insert_with_key" ->        \* ... and is handed the entry's own key
          IF occ THEN Res(<<"occ">> \o JEntV(ts[i]) \o <<0, 0, 0, 0>>, ts, {k.kt}, {v.vt})
-         ELSE VacInsert(v, <<"vac">> \o JVal(v) \o <<1>> \o JKey(k))
+         ELSE VacInsertP(v, <<"vac">> \o JVal(v) \o <<1>> \o JKey(k), <<"panic", 1>>)
     [] m = "or_default" ->
          IF occ THEN Res(<<"occ">> \o JEntV(ts[i]), ts, {k.kt}, {})
          ELSE VacInsert([vt |-> FreshTag, v |-> 0], <<"vac", FreshTag, 0>>)
